@@ -2862,18 +2862,14 @@ class SHA1Reader(BinaryIO):
             ChecksumMismatch: If SHA1 doesn't match
         """
         stored = self.f.read(20)
-        # If git option index.skipHash is set the index will be empty
-        if stored != self.sha1.digest() and (
-            not allow_empty
-            or (
-                len(stored) == 20
-                and sha_to_hex(RawObjectID(stored))
-                != b"0000000000000000000000000000000000000000"
-            )
+        # If git option index.skipHash is set the stored hash is all zeros.
+        # Anything else, including a trailer cut short by truncation, has to
+        # match the digest of the data that was read.
+        if stored != self.sha1.digest() and not (
+            allow_empty and stored == b"\x00" * 20
         ):
             raise ChecksumMismatch(
-                self.sha1.hexdigest(),
-                sha_to_hex(RawObjectID(stored)) if stored else b"",
+                self.sha1.hexdigest(), binascii.hexlify(stored).decode("ascii")
             )
 
     def close(self) -> None:
